@@ -300,6 +300,35 @@ func zzSelfNil(p *zzQ) int { return p.f }
 //@ contract zzSelfNil
 //@   modifies nothing
 
+func zzSelfJoin(c container, flag bool) {
+	if flag {
+		c.iadd(5)
+	}
+}
+
+//@ contract zzSelfJoin
+//@   requires cwf(c) && croom(c)
+//@   ensures cmem(c, 5)                            -- false when !flag (a fact of one branch must not survive the join)
+//@   modifies repr(c)
+
+func zzSelfPredArg(c container, d container) int { return 0 }
+
+//@ contract zzSelfPredArg
+//@   requires cwf(c) && cwf(d)
+//@   ensures forall v in 0..65536 :: cmem(c, v) <==> cmem(d, v)       -- false: two unrelated containers
+//@   modifies nothing
+
+func zzSelfPredHeap(ac *arrayContainer) {
+	if len(ac.content) > 0 {
+		ac.content[0] = 9
+	}
+}
+
+//@ contract zzSelfPredHeap
+//@   requires awf(ac)
+//@   ensures forall v in 0..65536 :: amem(ac, v) <==> old(amem(ac, v))     -- false: the first element was overwritten
+//@   modifies elems(ac.content)
+
 func zzMask(x uint32) uint32 { return x & 0xffff0000 }
 
 //@ contract zzMask
@@ -312,7 +341,7 @@ func zzSelfWrap(a uint16, b uint16) int { return int(a + b) }
 //@   ensures res == a + b                      -- false: uint16 addition wraps
 //@   modifies nothing
 '''
-ENGINE_KEYS = ['roaring.zzSelfFrame', 'roaring.zzSelfFresh', 'roaring.zzSelfByte', 'roaring.zzSelfWrap', 'roaring.zzSelfMkBad', 'roaring.zzSelfElemFrame', 'roaring.zzSelfIfaceEref', 'roaring.zzSelfLoopFrame', 'roaring.zzSelfAlias', 'roaring.zzSelfAppendAlias', 'roaring.zzSelfCallFrame', 'roaring.zzSelfNested', 'roaring.zzSelfSub', 'roaring.zzSelfBreak', 'roaring.zzSelfInline', 'roaring.zzSelfShadow', 'roaring.zzSelfTypeSwitch', 'roaring.zzSelfDiv', 'roaring.zzSelfIdx', 'roaring.zzSelfNil']
+ENGINE_KEYS = ['roaring.zzSelfFrame', 'roaring.zzSelfFresh', 'roaring.zzSelfByte', 'roaring.zzSelfWrap', 'roaring.zzSelfMkBad', 'roaring.zzSelfElemFrame', 'roaring.zzSelfIfaceEref', 'roaring.zzSelfLoopFrame', 'roaring.zzSelfAlias', 'roaring.zzSelfAppendAlias', 'roaring.zzSelfCallFrame', 'roaring.zzSelfNested', 'roaring.zzSelfSub', 'roaring.zzSelfBreak', 'roaring.zzSelfInline', 'roaring.zzSelfShadow', 'roaring.zzSelfTypeSwitch', 'roaring.zzSelfDiv', 'roaring.zzSelfIdx', 'roaring.zzSelfNil', 'roaring.zzSelfJoin', 'roaring.zzSelfPredArg', 'roaring.zzSelfPredHeap']
 ENGINE_OK = ['roaring.zzCopyStruct', 'roaring.zzSelfCallee', 'roaring.zzP.bump', 'roaring.zzB.bumpAll', 'roaring.zzMk', 'roaring.zzMask']
 
 FIX_COMMITS = [
